@@ -294,3 +294,19 @@ func SameLoadNoDom(a, b ssa.Value) bool {
 	}
 	return false
 }
+
+// CellLoads returns every load of cell a, in its function and nested closures.
+func CellLoads(a *ssa.Alloc) []*ssa.UnOp {
+	var out []*ssa.UnOp
+	for _, addr := range addrsOfCell(a) {
+		if addr.Referrers() == nil {
+			continue
+		}
+		for _, ref := range *addr.Referrers() {
+			if u, ok := ref.(*ssa.UnOp); ok && u.Op == token.MUL && u.X == addr {
+				out = append(out, u)
+			}
+		}
+	}
+	return out
+}
